@@ -25,19 +25,19 @@ def _r(rng, lo, hi, q=4):
     return rng.randint(int(lo * q), int(hi * q)) / q
 
 
-def gen_source(rng):
-    k = rng.choice(['P', 'P', 'UD', 'UD', 'CD', 'CD', 'N', 'UC', 'NB'])
-    if k == 'P': return dict(type='P', mean=_r(rng, 3, 12, 2))
+def gen_source(rng, small=False):
+    k = rng.choice(['P', 'P', 'UD', 'UD', 'CD', 'CD', 'N', 'UC'] + ([] if small else ['NB']))
+    if k == 'P': return dict(type='P', mean=_r(rng, 3, 6 if small else 12, 2))
     if k == 'UD':
-        lo = rng.randint(0, 6); return dict(type='UD', lo=lo, hi=lo + rng.randint(2, 10))
+        lo = rng.randint(0, 6); return dict(type='UD', lo=lo, hi=lo + rng.randint(2, 6 if small else 10))
     if k == 'CD':
-        m = rng.randint(2, 5); pts = sorted(rng.sample(range(0, 16), m))
+        m = rng.randint(2, 5); pts = sorted(rng.sample(range(0, 10 if small else 16), m))
         w = [rng.randint(1, 8) for _ in pts]; s = sum(w)
         pr = [x / s for x in w]; pr[-1] = 1.0 - sum(pr[:-1])
         return dict(type='CD', demand_list=pts, probabilities=pr)
-    if k == 'N': return dict(type='N', mean=_r(rng, 3, 12, 2), standard_deviation=_r(rng, 1, 3, 2))
+    if k == 'N': return dict(type='N', mean=_r(rng, 3, 8 if small else 12, 2), standard_deviation=_r(rng, 1, 1.5 if small else 3, 2))
     if k == 'UC':
-        lo = _r(rng, 0, 6, 2); return dict(type='UC', lo=lo, hi=lo + _r(rng, 2, 10, 2))
+        lo = _r(rng, 0, 6, 2); return dict(type='UC', lo=lo, hi=lo + _r(rng, 2, 6 if small else 10, 2))
     return dict(type='NB', n=rng.randint(2, 8), p=rng.choice([0.4, 0.5, 0.6]))
 
 
@@ -49,11 +49,12 @@ def gen_case(rng, tmax, malformed_rate=0.08):
         v0 = draw()
         vals = [v0] * T if rng.random() < stationary_p else [draw() for _ in range(T)]
         return ['list', ([0.0] + vals) if shape == 'T1' else vals]
+    small = T >= 5          # long horizons: narrower demand and spreads keep the exact-rational model evaluation affordable
     kmode = rng.random()
-    bigK = 0.35 <= kmode < 0.45
+    bigK = 0.35 <= kmode < 0.45 and not small
     if kmode < 0.35: Kd = lambda: 0.0
     elif bigK: Kd = lambda: float(rng.randint(60, 150))       # big K, small h: wide (s,S) band
-    else: Kd = lambda: _r(rng, 1, 40)
+    else: Kd = lambda: _r(rng, 1, 15 if small else 40)
     c = dict(T=T, h=arg(lambda: _r(rng, 0.5, 1) if bigK else _r(rng, 0.25, 3)), p=arg(lambda: _r(rng, 2, 20)),
              c=(['scalar', 0.0] if rng.random() < 0.25 else arg(lambda: _r(rng, 0, 3))), K=arg(Kd, 0.6),
              gamma=arg(lambda: rng.choice([1.0, 0.9, 0.95]), 0.7), malformed=None, d_spread=4, s_spread=5)
@@ -62,15 +63,16 @@ def gen_case(rng, tmax, malformed_rate=0.08):
     elif tm < 0.6: c['hT'], c['pT'] = _r(rng, 0.25, 3), _r(rng, 2, 20)
     else: c['hT'], c['pT'] = _r(rng, 0, 3), _r(rng, 0, 20)
     if rng.random() < 0.55:
-        c['demand'] = dict(kind='normal', mean=arg(lambda: _r(rng, 3, 12, 2), 0.6), sd=arg(lambda: _r(rng, 1, 3, 2), 0.7))
+        c['demand'] = dict(kind='normal', mean=arg(lambda: _r(rng, 3, 8 if small else 12, 2), 0.6), sd=arg(lambda: _r(rng, 1, 1.5 if small else 3, 2), 0.7))
     else:
-        if rng.random() < 0.5: c['demand'] = dict(kind='source', sources=['scalar', gen_source(rng)])
+        if rng.random() < 0.5: c['demand'] = dict(kind='source', sources=['scalar', gen_source(rng, small)])
         else:
             shape = rng.choice(['T', 'T1'])
-            l = [gen_source(rng) for _ in range(T)]
+            l = [gen_source(rng, small) for _ in range(T)]
             c['demand'] = dict(kind='source', sources=['list', ([None] + l) if shape == 'T1' else l])
     if rng.random() < 0.15: c['d_spread'] = rng.choice([3, 5])
     if rng.random() < 0.15: c['s_spread'] = rng.choice([3, 4, 6])
+    if small: c['d_spread'] = 3; c['s_spread'] = rng.choice([3, 4])
     u = rng.random()
     c['IL'] = float(rng.randint(-3, 12)) if u < 0.7 else (_r(rng, -4, 12, 10) if u < 0.93 else float(rng.choice([-60, -45, 400])))
     m = rng.random()
@@ -79,12 +81,12 @@ def gen_case(rng, tmax, malformed_rate=0.08):
         # stationary normal instance on which Veinott's conditions for the myopic bounds hold and no truncation binds
         sc = lambda v: ['scalar', v] if rng.random() < 0.5 else ['list', [v] * T]
         c.update(h=sc(_r(rng, 0.25, 3)), p=sc(_r(rng, 4, 20)), c=sc(_r(rng, 0, 2)), K=sc(rng.choice([0.0, _r(rng, 1, 30), _r(rng, 1, 30)])),
-                 gamma=sc(rng.choice([1.0, 0.9, 0.95])), mode='opt', d_spread=4, s_spread=5)
-        c['demand'] = dict(kind='normal', mean=sc(_r(rng, 8, 12, 2)), sd=sc(_r(rng, 1, 2, 2)))
+                 gamma=sc(rng.choice([1.0, 0.9, 0.95])), mode='opt', d_spread=3 if small else 4, s_spread=4 if small else 5)
+        c['demand'] = dict(kind='normal', mean=sc(_r(rng, 6, 8, 2) if small else _r(rng, 8, 12, 2)), sd=sc(_r(rng, 1, 1.5 if small else 2, 2)))
         if norm_list(c['gamma'], T)[T] != 1.0: c['hT'], c['pT'] = 0.0, 0.0
         c['myopic_friendly'] = True
     if c['mode'] != 'opt':
-        lo = -rng.randint(8, 30); c['xr'] = [lo, rng.randint(25, 60)]
+        lo = -rng.randint(8, 20 if small else 30); c['xr'] = [lo, rng.randint(25, 35 if small else 60)]
         if c['mode'] == 'optgrid' and rng.random() < 0.7: c['xr'][1] = rng.randint(4, 14)     # too small: forces the range doubling
     if c['mode'] == 'eval':
         lo, hi = c['xr']
@@ -177,7 +179,7 @@ def norm_list(a, T):
 
 def tables(c, xr):
     """the implementation's internal tables, recomputed with the same library calls it uses
-    (finite_horizon.py:283-299, 315-317, 352-353, 379-380, 416-420, 431-434)"""
+    (finite_horizon.py:283-299, 315-317, 352-353, 379-380, 416-420, 430-439)"""
     from stockpyl.helpers import ensure_list_for_time_periods
     from stockpyl.demand_source import DemandSource
     from stockpyl.eoq import economic_order_quantity_with_backorders
@@ -210,7 +212,9 @@ def tables(c, xr):
         prob.append([float(v) for v in pr])
         row = []
         for y in range(xr[0], xr[-1] + 1):
-            n, n_bar = lf.normal_loss(y, mean[t], sd[t])
+            if ds[t].type == 'N': n, n_bar = lf.normal_loss(y, mean[t], sd[t])
+            elif ds[t].is_discrete: n, n_bar = lf.discrete_loss(y, ds[t].demand_distribution)
+            else: n, n_bar = lf.continuous_loss(y, ds[t].demand_distribution)
             row.append(float(h[t] * n_bar + p[t] * n))
         L.append(row)
     return dict(h=[float(v) for v in h], p=[float(v) for v in p], c=[float(v) for v in cc], K=[float(v) for v in K],
@@ -339,36 +343,35 @@ def oracle(c, r, chk, extra_eval=True):
     pricing = None; near = 0
     for t in range(T, 0, -1):
         d = ot['dists'][t]; prob = [d.cell(k) for k in range(ot['d_min'], ot['d_max'] + 1)]
-        ok = False
-        for conv in ('true', 'norm'):
-            gg = ot['g_' + conv][t]
+        tol = 1e-7 if d.kind == 'UC' else 1e-9      # continuous_loss integrates numerically between the 1e-10 quantiles
+        def bellman_err(gg):
             cand, H = cand_matrix(x_min, n, cm[t + 1], prob, ot['d_min'], gg, g[t], cc[t], K[t])
             if evalmode:
                 pol = policy_matrix(c)[t]; j = (pol - x_min).astype(int)
                 want = cand[np.arange(n), j]; want = np.where(pol < xs, H[j], want)
             else:
                 want = cand.min(axis=1)
-            err = np.abs(cm[t] - want) / np.maximum(1e-9, np.abs(want))
-            if err.max() <= 1e-9: ok = True; break
-            if d.kind == 'N': break
+            return cand, H, want, np.abs(cm[t] - want) / np.maximum(1e-9, np.abs(want))
+        cand, H, want, err = bellman_err(ot['g_true'][t])
+        ok = err.max() <= tol
         if not ok:
             i = int(err.argmax())
-            bad.append(('recursion', 'cost_matrix[%d, x=%d] = %r but the recursion gives %r (max rel err %.3g; one-period cost under %s)'
-                        % (t, xs[i], float(cm[t, i]), float(want[i]), float(err.max()), 'normal_loss' if d.kind != 'N' else 'the normal distribution')))
-        elif conv == 'norm' and d.kind != 'N':
-            dev = float(np.max(np.abs(ot['g_norm'][t] - ot['g_true'][t]) / np.maximum(1e-9, np.abs(ot['g_true'][t]))))
-            if dev > 1e-3 and pricing is None:
-                y = int(np.argmax(np.abs(ot['g_norm'][t] - ot['g_true'][t])))
-                pricing = ('period %d, demand source %s: the cost matrix satisfies the recursion only with the one-period cost h*nbar+p*n of a NORMAL '
-                           'distribution (normal_loss(y, mean, sd)); under the specified distribution g(%d) = %.6g, the implementation used %.6g (max rel dev %.3g)'
-                           % (t, d.spec, xs[y], float(ot['g_true'][t][y]), float(ot['g_norm'][t][y]), dev))
+            if d.kind != 'N' and bellman_err(ot['g_norm'][t])[3].max() <= 1e-9:
+                if pricing is None:
+                    y = int(np.argmax(np.abs(ot['g_norm'][t] - ot['g_true'][t])))
+                    pricing = ('period %d, demand source %s: the cost matrix satisfies the recursion only with the one-period cost h*nbar+p*n of a NORMAL '
+                               'distribution (normal_loss(y, mean, sd)); under the specified distribution g(%d) = %.6g, the implementation used %.6g'
+                               % (t, d.spec, xs[y], float(ot['g_true'][t][y]), float(ot['g_norm'][t][y])))
+            else:
+                bad.append(('recursion', 'cost_matrix[%d, x=%d] = %r but the recursion under the specified demand distribution gives %r (max rel err %.3g)'
+                            % (t, xs[i], float(cm[t, i]), float(want[i]), float(err.max()))))
         # oul attains the minimum and is the first minimiser
         y = om[t]
         if np.any(y != np.round(y)) or np.any(y > x_max) or np.any(y < x_min) or (not evalmode and np.any(y < xs)):
             bad.append(('oul-range', 'oul_matrix[%d] has an entry that is not an integer in [x, x_max]' % t))
         elif not evalmode and ok:
             j = (y - x_min).astype(int); v = cand[np.arange(n), j]
-            if np.max(np.abs(v - cm[t]) / np.maximum(1e-9, np.abs(cm[t]))) > 1e-9:
+            if np.max(np.abs(v - cm[t]) / np.maximum(1e-9, np.abs(cm[t]))) > tol:
                 i = int(np.argmax(np.abs(v - cm[t])))
                 bad.append(('oul-does-not-attain', 'oul_matrix[%d, x=%d] = %d has cost %r, cost_matrix says %r' % (t, xs[i], int(y[i]), float(v[i]), float(cm[t, i]))))
             for i in range(n):
@@ -391,12 +394,12 @@ def oracle(c, r, chk, extra_eval=True):
             jS = int(r['S'][t] - x_min)
             if xi and all(relgap(cand[i, int(om[t, i] - x_min)], cand[i, jS]) <= 1e-7 for i in xi): near += 1
             else: bad.append(('K=0-but-s<S', 't=%d: fixed cost 0 but s=%r != S=%r' % (t, r['s'][t], r['S'][t])))
-        # own recursion (own rows), normal-loss convention if that is what matched
-        candO, HO = cand_matrix(x_min, n, own, prob, ot['d_min'], ot['g_' + (conv if ok else 'true')][t], g[t], cc[t], K[t])
+        # own recursion (own rows) under the specified distribution
+        candO, HO = cand_matrix(x_min, n, own, prob, ot['d_min'], ot['g_true'][t], g[t], cc[t], K[t])
         if evalmode:
             pol = policy_matrix(c)[t]; j = (pol - x_min).astype(int); own = np.where(pol < xs, HO[j], candO[np.arange(n), j])
         else: own = candO.min(axis=1)
-        if ok and np.max(np.abs(own - cm[t]) / np.maximum(1e-9, np.abs(own))) > 1e-8:
+        if ok and np.max(np.abs(own - cm[t]) / np.maximum(1e-9, np.abs(own))) > max(1e-8, 10 * tol):
             bad.append(('recursion-compounded', 'period %d: independent full recursion differs from cost_matrix' % t))
     if near: chk.extra['near_tie_skipped'] = chk.extra.get('near_tie_skipped', 0) + near
     if pricing: bad.append((SIG_PRICING.split('|', 1)[1], pricing))
@@ -502,6 +505,24 @@ def compare_model(c, r, m, tb, chk):
 
 # ------------------------------------------------------------------------------------------------
 
+def eval_balanced(todo, jobs=8):
+    """coq_eval over the cases, spread over `jobs` coqc processes by estimated cost (longest-processing-time first)"""
+    from concurrent.futures import ThreadPoolExecutor
+    def cost(item):
+        c, r, tb, _ = item; n = len(r['xr']) if r.get('ok') else c['xr'][1] - c['xr'][0] + 1
+        return (n * (tb['d_max'] - tb['d_min'] + 1) * 10 + n * n) * max(1, c['T']) ** 2
+    order = sorted(range(len(todo)), key=lambda i: -cost(todo[i]))
+    bins = [[] for _ in range(min(jobs, len(todo)))]; load = [0] * len(bins)
+    for i in order:
+        b = load.index(min(load)); bins[b].append(i); load[b] += cost(todo[i])
+    with ThreadPoolExecutor(max_workers=len(bins)) as ex:
+        futs = [ex.submit(coq_eval, 'c12_b%d' % k, 'Alg.FH', 'Open Scope Z_scope.', [todo[i][3] for i in b], 1700) for k, b in enumerate(bins)]
+        out = [None] * len(todo)
+        for b, fu in zip(bins, futs):
+            for i, v in zip(b, fu.result()): out[i] = v
+    return out
+
+
 def case_key(c, r):
     return json.dumps(jsonable([c['T'], norm_list(c['h'], c['T'])[1:], norm_list(c['p'], c['T'])[1:], norm_list(c['c'], c['T'])[1:],
                                 norm_list(c['K'], c['T'])[1:], norm_list(c['gamma'], c['T'])[1:], c['hT'], c['pT'],
@@ -545,7 +566,7 @@ def explore(chk, n, tmax, do_model=True, malformed_rate=0.08):
         if do_model: todo.append((c, r, tb, model_expr(c, tb, r['xr'])))
         chk.case(c, nontriv, case_key(c, r))
     if do_model and todo:
-        res = coq_eval_sharded('c12', 'Alg.FH', 'Open Scope Z_scope.', [e for _, _, _, e in todo], shard=max(1, (len(todo) + 7) // 8), jobs=8, timeout=1500)
+        res = eval_balanced(todo)
         for (c, r, tb, _), m in zip(todo, res):
             chk.traces += 1
             if c['malformed']:
@@ -558,14 +579,14 @@ def run(chk):
     chk.rule = RULE
     chk.trusted += ['model Alg/FH.v is hand-written; tied to /repo by comparing cost matrix (1e-9 relative), oul matrix (margin rule), (s,S), total cost and the '
                     'final x-range after range doubling on generated instances',
-                    'SciPy distributions (pmf/cdf), loss_functions.normal_loss and the EOQB formula enter the model only as input tables recomputed by the harness '
+                    'SciPy distributions (pmf/cdf), loss_functions.normal_loss / discrete_loss / continuous_loss and the EOQB formula enter the model only as input tables recomputed by the harness '
                     'with the same library calls as finite_horizon.py (oracles)']
     chk.assume += ['floating-point rounding is not modelled: theorems are over exact rationals; the model is evaluated on the exact rational values of the '
                    "implementation's float tables and compared within 1e-9 relative",
                    'x_range is a contiguous ascending integer range and user oul_matrix entries are integers (what the function itself returns)']
     chk.extra['near_tie_skipped'] = 0
     chk.proof()
-    n, tmax = (44, 4) if chk.tier == 'quick' else (300, 8)
+    n, tmax = (44, 4) if chk.tier == 'quick' else (240, 8)
     explore(chk, n, tmax)
     if (chk.broken or chk.mismatches) and not chk.fails:
         explore(chk, 6 * n if chk.tier == 'quick' else n, tmax, do_model=False, malformed_rate=0.03)
